@@ -64,6 +64,11 @@ def run(ctx):
     fp = ctx.path("f40.ndjson")
     vlib.run_bin("fault_driver", ["f40", "--out", fp], timeout=120)
     ev += vlib.read_ndjson(fp)
+    # every transient fault in a publication step (meta.json / .managed.json replacement, directory
+    # sync) of a workload that collects and reloads between its commits and its merge, writer kept
+    pp = ctx.path("publish.ndjson")
+    vlib.run_bin("fault_driver", ["publish", "--out", pp], timeout=600)
+    ev += vlib.read_ndjson(pp)
     runs = api_runs(ev)
     runs = [r for r in runs if any(e["ev"] != "summary" for e in r)]
     fired = sum(1 for r in runs if nontrivial(r))
